@@ -440,7 +440,10 @@ def compile_ast(
             )
 
             if nd.how == "left":
-                joined = df.join(joined, on="__INDEX__", how="left").drop("__INDEX__")
+                # only the right columns are taken from the matches: joining the left columns
+                # back as well leaves `<name>_right` copies behind, which collide in nested joins
+                right_cols = right_df.collect_schema().names()
+                joined = df.join(joined.select("__INDEX__", *right_cols), on="__INDEX__", how="left").drop("__INDEX__")
 
             df = joined
 
